@@ -168,27 +168,44 @@ theorem uintLE_good (k : Nat) : Good (uintLE k) (fun n => n < 256 ^ k) :=
 theorem u32_good : Good u32 (fun n => n < 4294967296) := uintLE_good 4
 theorem u64_good : Good u64 (fun n => n < 18446744073709551616) := uintLE_good 8
 
-theorem i32_good : Good i32 (fun i => -2147483648 ≤ i ∧ i < 2147483648) := by
-  unfold i32 intLE
-  refine (pmap_good (uintLE_good 4) _ _).mono ?_
-  intro i ⟨h1, h2⟩
-  simp only [ofSigned, toSigned, Nat.reducePow, Nat.reduceDiv]
-  refine ⟨by omega, ?_⟩
-  congr 1
+theorem signed_rt (M : Nat) (i : Int) (h1 : -((M / 2 : Nat) : Int) ≤ i) (h2 : i < ((M / 2 : Nat) : Int))
+    (hE : M % 2 = 0) :
+    (i % (M : Int)).toNat < M ∧
+      (if (i % (M : Int)).toNat < M / 2 then (((i % (M : Int)).toNat : Nat) : Int)
+       else (((i % (M : Int)).toNat : Nat) : Int) - (M : Int)) = i := by
   by_cases hc : i < 0
-  · rw [if_neg (by omega)]; omega
-  · rw [if_pos (by omega)]; omega
+  · have e : i % (M : Int) = i + M := by
+      rw [← Int.add_emod_right]
+      exact Int.emod_eq_of_lt (by omega) (by omega)
+    rw [e]
+    refine ⟨by omega, ?_⟩
+    rw [if_neg (by omega)]; omega
+  · have e : i % (M : Int) = i := Int.emod_eq_of_lt (by omega) (by omega)
+    rw [e]
+    refine ⟨by omega, ?_⟩
+    rw [if_pos (by omega)]; omega
 
-theorem i64_good : Good i64 (fun i => -9223372036854775808 ≤ i ∧ i < 9223372036854775808) := by
-  unfold i64 intLE
-  refine (pmap_good (uintLE_good 8) _ _).mono ?_
+theorem intLE_good (k : Nat) (hk : 0 < k) :
+    Good (intLE k) (fun i => -((256 ^ k / 2 : Nat) : Int) ≤ i ∧ i < ((256 ^ k / 2 : Nat) : Int)) := by
+  unfold intLE
+  refine (pmap_good (uintLE_good k) _ _).mono ?_
   intro i ⟨h1, h2⟩
-  simp only [ofSigned, toSigned, Nat.reducePow, Nat.reduceDiv]
-  refine ⟨by omega, ?_⟩
-  congr 1
-  by_cases hc : i < 0
-  · rw [if_neg (by omega)]; omega
-  · rw [if_pos (by omega)]; omega
+  have hE : 256 ^ k % 2 = 0 := by
+    cases k with
+    | zero => omega
+    | succ k => rw [Nat.pow_succ]; omega
+  have := signed_rt (256 ^ k) i h1 h2 hE
+  exact ⟨this.1, congrArg some this.2⟩
+
+theorem i32_good : Good i32 (fun i => -2147483648 ≤ i ∧ i < 2147483648) :=
+  (intLE_good 4 (by decide)).mono (fun i h => by
+    have e : (256 ^ 4 / 2 : Nat) = 2147483648 := by decide
+    rw [e]; exact ⟨by omega, by omega⟩)
+
+theorem i64_good : Good i64 (fun i => -9223372036854775808 ≤ i ∧ i < 9223372036854775808) :=
+  (intLE_good 8 (by decide)).mono (fun i h => by
+    have e : (256 ^ 8 / 2 : Nat) = 9223372036854775808 := by decide
+    rw [e]; exact ⟨by omega, by omega⟩)
 
 theorem const_good {α : Type} [DecidableEq α] {c : Codec α} {w : α → Prop} (h : Good c w) (v : α) (hv : w v) :
     Good (const c v) (fun _ => True) :=
